@@ -1,9 +1,14 @@
 import ShredModel.Lemmas.Scenario
+import ShredModel.Lemmas.Print
 /-!
-# C20 — the printed plan matches the executed plan
+# C20 — the printed par/seq plan is total and matches the executed plan
 
-`write_par_seq` prints the `ids` table; the dispatcher executes the `stages` table. They are
-kept in lock-step by `insert` — for every registration sequence.
+`write_par_seq` walks the `ids` table and prints, for every stage, group and position, the
+name registered for the id found there — or (repair D1 in /repo) the placeholder
+`unnamed_system_<id>` when the system was registered with the empty name. In the model the
+text is `render (printTree b)`: total by construction (no lookup can fail), so `C20_print_total`
+is the statement that the *name choice* never fails; the harness compares the real text byte
+for byte and checks that formatting does not panic.
 -/
 namespace Shred
 namespace Scenario
@@ -15,7 +20,47 @@ theorem C20_printed_is_executed : sc.final.b.stages = sc.final.b.ids := by
   obtain ⟨z, hz⟩ := sc.good
   exact stages_eq_ids hz
 
+/-- **C20 (every system exactly once).** Every registered system occurs exactly once in the
+table that is printed. -/
+theorem C20_each_once (x : Nat) (hx : x < sc.final.n) : sc.final.b.ids.flatten.flatten.count x = 1 := by
+  obtain ⟨z, hz⟩ := sc.good
+  rw [← stages_eq_ids hz, stages_eq_of_zips hz.zips, flatten_sys_eq_allIds hz, hz.ids x]
+  simp [hx]
+
 end Scenario
+
+namespace DispatcherBuilder
+
+/-- **C20 (the text is the rendering of the name tree of the `ids` table).** -/
+theorem C20_text_structure (b : DispatcherBuilder) :
+    b.writeParSeq = render (b.stagesBuilder.ids.map fun st => st.map fun g => g.map (printedName b.map)) := rfl
+
+/-- **C20 (the name map stays well-formed under every registration, failed ones included).** -/
+theorem C20_map_ok (b : DispatcherBuilder) (h : MapOK b) (tag : SysTag) (name : String) (dep : List String) (d : Decl) :
+    MapOK (b.add tag name dep d).1 := mapOK_add b h tag name dep d
+
+/-- **C20 (names).** A system registered under a name is printed under that name, sanitised;
+a system without a name gets the placeholder carrying its id — the choice never fails. -/
+theorem C20_print_total (b : DispatcherBuilder) (h : MapOK b) (id : SysId) :
+    (∃ name, (name, id) ∈ b.map ∧ printedName b.map id = sanitise name) ∨
+    ((∀ p, p ∈ b.map → p.2 ≠ id) ∧ printedName b.map id = sanitise s!"unnamed_system_{id}") := by
+  by_cases hx : ∃ p, p ∈ b.map ∧ p.2 = id
+  · obtain ⟨p, hp, rfl⟩ := hx
+    exact Or.inl ⟨p.1, hp, printedName_named h.ids hp⟩
+  · have : ∀ p, p ∈ b.map → p.2 ≠ id := fun p hp e => hx ⟨p, hp, e⟩
+    exact Or.inr ⟨this, printedName_unnamed this⟩
+
+/-- non-vacuity: one named and one unnamed system, side by side: the printed table holds both
+ids, only the named one is in the map (so the second gets the placeholder) -/
+example :
+    let b := (({} : DispatcherBuilder).add 0 "a b" [] ⟨[], [], 3⟩).1.add 1 "" [] ⟨[], [], 3⟩ |>.1
+    b.stagesBuilder.ids = [[[0], [1]]] ∧ b.map.map (·.2) = [0] ∧ b.currentId = 2 := by decide
+
+end DispatcherBuilder
 end Shred
 
 #print axioms Shred.Scenario.C20_printed_is_executed
+#print axioms Shred.Scenario.C20_each_once
+#print axioms Shred.DispatcherBuilder.C20_text_structure
+#print axioms Shred.DispatcherBuilder.C20_map_ok
+#print axioms Shred.DispatcherBuilder.C20_print_total
